@@ -574,6 +574,11 @@ class Configuration(_Configuration):
         fname = self._configurations.pop(0)
         self._configurations.append(fname)
 
+        # a reload which failed leaves what it had read in the section parsers (they are only
+        # emptied by the commit): start from a clean parser, or this file is refused with
+        # "duplicate peer definition"
+        self._cleanup()
+
         # clearing the current configuration to be able to re-parse it
         self._clear()
 
